@@ -41,6 +41,8 @@ func dispatch(kind string, t *hlib.Toks) string {
 		return caseRleEnc(t)
 	case "rledec":
 		return caseRleDec(t)
+	case "introspect":
+		return caseIntrospect(t)
 	}
 	return "UNKNOWN-KIND " + kind
 }
